@@ -340,6 +340,11 @@ def gen_scenario(ch, prof):
             if prof.skip and _chance(ch, 1, 2):
                 mod = ch.rng_int('gen', 2, 4)
                 j['skip'] = [mod, ch.rng_int('gen', 0, mod - 1)]
+            elif prof.skip and _chance(ch, 1, 2):
+                # decimating through a deferred result: process() returns a callable that yields None for some frames
+                mod = ch.rng_int('gen', 2, 4)
+                j['form'] = 'callable'
+                j['defer_none'] = [mod, ch.rng_int('gen', 0, mod - 1)]
             add('k', {'sources': [{'from': 'j', 'sub': None}], 'has_output': False, 'proc_ns': gen_proc_pattern(ch, prof)})
     else:
         raise ValueError(shape)
